@@ -8,7 +8,7 @@ open SpsdkVerif.Fresh
 Requests (one per line):
   table                 -> `idx|evalTime|kind|loc|via|field;...`   the compiled site table
   wrappers              -> `name|prim|everyReturnDraws;...`
-  run 3,4/3,4/-/7       -> history = builds separated by `/`, each a comma list of site indices (`-` = no site);
+  run 3,4/3,4/_/7       -> history = builds separated by `/`, each a comma list of site indices (`_` = no site);
                            answer per build `site:label:e|c` (comma separated, builds separated by `/`), where
                            label = rank of the value by first occurrence in the history (the sharing partition)
                            and e/c = the site is early (evaluated once) / per call.
@@ -29,7 +29,7 @@ def wrappersLine : String :=
   if rows.isEmpty then "-" else ";".intercalate rows
 
 def parseBuild (s : String) : Option Build :=
-  if s == "-" then some [] else (s.splitOn ",").mapM (·.toNat?)
+  if s == "_" then some [] else (s.splitOn ",").mapM (·.toNat?)
 
 def parseHistory (s : String) : Option History := (s.splitOn "/").mapM parseBuild
 
@@ -53,7 +53,7 @@ def renderRun (h : History) : String :=
     (seen', acc.2 ++ [(o, l)])) ([], [])
   let perBuild := (List.range nb).map fun a =>
     let xs := labelled.filter (fun p => p.1.art == a)
-    if xs.isEmpty then "-" else ",".intercalate (xs.map fun p => s!"{p.1.site}:{p.2}:{if isEarly p.1.site then "e" else "c"}")
+    if xs.isEmpty then "_" else ",".intercalate (xs.map fun p => s!"{p.1.site}:{p.2}:{if isEarly p.1.site then "e" else "c"}")
   "/".intercalate perBuild
 
 def step : List String → String
